@@ -189,7 +189,7 @@ func (w *wf) affine1(v ssa.Value) aff {
 				if j, ok := idx[x.Index]; ok {
 					return affAtom(fmt.Sprintf("%s@%s#%d", name, w.callTag(c), j))
 				}
-				return affAtom(fmt.Sprintf("%s@%s#%d", f.Name(), w.callTag(c), x.Index))
+				return affAtom(fmt.Sprintf("%s@%s#%d", roleName(f), w.callTag(c), x.Index))
 			}
 		}
 	case *ssa.Convert:
@@ -426,7 +426,7 @@ func (w *wf) dests(v ssa.Value, seen map[ssa.Value]bool) []string {
 							idx = i
 						}
 					}
-					out = append(out, fmt.Sprintf("arg:%s#%d", f.Name(), idx))
+					out = append(out, fmt.Sprintf("arg:%s#%d", roleName(f), idx))
 					// results of in-package helpers keep flowing (e.g. newBitmap)
 					if f.Pkg == w.f.Pkg {
 						out = append(out, w.dests(x, seen)...)
